@@ -24,7 +24,9 @@ def body_deductive(rep):
 
 CLAUSE_TARGETS = ['yp_generator.YPPrologCompiler.' + f for f in (
     'find_clause_head_variable_arguments', 'compile_clause_head_variable_arguments', 'compile_arg_list_unification',
-    'compile_unification', 'compile_expression', 'compile_list', 'compile_variable_declaration', 'get_argument_variable')]
+    'compile_unification', 'compile_expression', 'compile_list', 'compile_variable_declaration', 'get_argument_variable',
+    'push_bound_vars', 'pop_bound_vars', 'filter_free_variables', 'get_free_variables', 'compile_free_variable_declarations',
+    'compile_function_body')]
 
 
 def clause_deductive(rep, targets=None, literal_lemma=True):
@@ -33,5 +35,5 @@ def clause_deductive(rep, targets=None, literal_lemma=True):
     fw.deductive(rep, targets or CLAUSE_TARGETS, ['generator_clause'], ['control.smt2'], theory=ClauseTheory)
     res = lemmas.prove_clause_lemmas()
     fw.add_smt(rep, [r for r in res if literal_lemma or 'LITERAL' not in r['name']], 'spec.clause-lemmas')
-    rep.lemmas.append('L-CNT (occurrence counts), L-LITERAL (denote(cexpr(t)) = tsem(t): the constructor calls emitted for a source term build '
+    rep.lemmas.append('L-CNT (occurrence counts), L-HPNAMES (alias names = non-None entries of head_args_by_pos), L-LITERAL (denote(cexpr(t)) = tsem(t): the constructor calls emitted for a source term build '
                       'the term the literal denotes): proved by induction over the spec definitions (SMT)')
